@@ -237,7 +237,7 @@ def run(ctx: Ctx) -> Result:
             for j, m in enumerate(r["mismatches"]):
                 found.append(((order[name], out["opt"], j + 1), violation_from_mismatch(sp, out["opt"], m)))
             if r["sample"] and out["opt"] == "0" and name in ("b_mul__int__int", "b_fdiv__i64__i64", "b_sub__u8__u8",
-                                                              "b_mod__float__float", "b_shl__int__int",
+                                                              "b_mod__float__float", "b_shl__int__int", "k_xor__eq0",
                                                               "k_xor__eqc", "k_sub__i32"):
                 samples.append(r["sample"])
     found.sort(key=lambda t: t[0])
@@ -298,7 +298,7 @@ def run(ctx: Ctx) -> Result:
         "evaluation_wall_seconds": round(t_eval, 1),
         "cpu_seconds_total": round(_cpu_seconds() - cpu0, 1),
         "lib_rt_include_dir": EXPECTED_LIB_RT,
-        "samples": samples[:5],
+        "samples": sorted(samples, key=lambda d: not d["function"].startswith("k_"))[:6],
     }
     return Result(PROPERTY, LEVEL, cov, violations, assumptions=[
         "64-bit platform (short tagged ints are 63-bit), gcc, CPython 3.12 of /venv",
